@@ -44,7 +44,7 @@ def run(ctx):
                 jobs.append({"id": len(jobs), "calls": calls})
                 meta.append((ci, vi))
                 vi += 1
-    res = run_api(ctx, exe, jobs, "desc")
+    res = run_api(ctx, exe, vary_builder_order(jobs, ctx.seed), "desc")
     # per case: all variants agree (insertion order / hash seed / constructor path independence)
     real = {}
     nvar = 0
